@@ -172,6 +172,10 @@ def retry(chk, crate):
                     report("C09-a/reset-on-failure", "a new attempt starts although the previous one failed and the "
                            "connection was not dropped", state)
                 failed = False
+            if n == SEQ_STREAM and slot == "N":
+                report("C09-b/stream-on-live-connection", "the command stream is started on a path on which the connection slot is "
+                       "empty (a failed or timed-out reconnect that is not reported: the exchange runs on `None` - a panic, neither "
+                       "a result nor an error)", state)
             if n == SEND:
                 a = ex.operand(t["args"][1])
                 if a[0] == "agg" and a[1] == "core::result::Result::Err":
@@ -249,7 +253,7 @@ def retry(chk, crate):
                 dq.append(ns)
     chk.analysed["retry_product_states"] = n
     chk.analysed["reset_pending_at_yield"] = sorted(set(pending_at_yield))
-    for rule in ("C09-a/reset-on-failure", "C09-b/keep-on-success"):
+    for rule in ("C09-a/reset-on-failure", "C09-b/keep-on-success", "C09-b/stream-on-live-connection"):
         mine = [(m, sp) for (r, m), sp in findings.items() if r == rule]
         if mine:
             for m, sp in mine:
@@ -287,7 +291,13 @@ def retry(chk, crate):
                     "the command stream is started without checking the connection slot", "", f.sp(), nontrivial=False)
         if seqs:
             a = f.ex.operand(seqs[0][1]["args"][1])
-            uses = any(inner_path(x) for x in walk(a))
+
+            def from_slot(x):
+                # the slot or its content (`(src.inner as Some).0` of a `Some(ref mut t)` pattern)
+                x = strip_ref(x)
+                return inner_path(x) or (x[0] == "path" and "inner" in tuple(x[2])) or \
+                    (x[0] == "proj" and strip_ref(x[1])[0] in ("var", "path") and "inner" in tuple(x[2]))
+            uses = any(from_slot(x) for x in walk(a))
             if not uses:
                 # a borrowed binding of the slot's content (`match src.inner.as_mut() { Some(t) => t, None => src.inner.insert(..) }`):
                 # every definition of the variable must come out of the slot
@@ -295,7 +305,7 @@ def retry(chk, crate):
                 if va[0] == "var":
                     ds = f.tr.defs.get(va[2], [])
                     exprs = [f.ex.rvalue(d[3]["rv"]) if d[2] == "assign" else f.call_expr(d[3], d[0]) for d in ds if d[2] in ("assign", "call")]
-                    uses = bool(exprs) and all(any(inner_path(x) for x in walk(e_)) for e_ in exprs)
+                    uses = bool(exprs) and all(any(from_slot(x) for x in walk(e_)) for e_ in exprs)
             chk.require(uses, "C09-d/uses-slot", "Sequence::into_stream",
                         "the command stream does not run on the vetted connection slot: %s" % show(a)[:100], "src.inner", f.sp(seqs[0][0]))
     stores = dict(slot_writes)
